@@ -71,7 +71,9 @@ var plugSpecs = []plugSpec{
 	}},
 	{"nbp", true, true, func(c *ctx) []string {
 		return someOf(c, []string{"tftp://10.0.0.1/boot.efi", "tftp://boot.example.com:69/pxelinux.0", "http://[2001:db8::1]/boot.ipxe", "https://host/b?params=a%20b", "http://h/x?params=", "ftp://x/y",
-			"/just/path", "host/path", "", "http://%zz", "tftp://h/f?params=p1%20p2", "HTTP://UPPER/case", "tftp://", "bootfile", "http://h/" + strings.Repeat("p", 300)}, 0, 2)
+			"/just/path", "host/path", "", "http://%zz", "tftp://h/f?params=p1%20p2", "HTTP://UPPER/case", "tftp://", "bootfile", "http://h/" + strings.Repeat("p", 300),
+			// paths whose decoded and escaped forms differ
+			"tftp://10.0.0.1/my%20nbp.efi", "tftp://h/boot/nbp^2", "boot%41file", "tftp://h/\u00fc.efi", "http://h/a%20b/c^d", "tftp://h/x%2Fy"}, 0, 2)
 	}},
 	{"sleep", true, true, func(c *ctx) []string {
 		return someOf(c, []string{"1ms", "0s", "2ms", "garbage", "-1ms", "", "1us"}, 0, 2)
@@ -309,6 +311,9 @@ func genPlug(c *ctx) {
 		var args []string
 		if sp.name == "server_id" {
 			args = serverIDArgs(c, v6)
+		} else if v, ok := sysValid[sp.name]; ok && c.rng.Intn(3) == 0 && v[b2i(v6)][0] != "-" {
+			// one time in three a configuration that is certainly accepted
+			args = strings.Fields(v[b2i(v6)][c.rng.Intn(len(v[b2i(v6)]))])
 		} else {
 			args = sp.args(c)
 		}
